@@ -175,6 +175,13 @@ func (c *checker) run() {
 			}
 			for _, m := range e.Gated {
 				switch {
+				case parentCancel && !req:
+					// the caller cancelled its own context: members see it, nothing to judge before a decision
+					if done[m] {
+						c.counts["caller-cancel-visible-to-member"]++
+					} else {
+						c.fail("cancel-late", "member %d's context is still live at a quiescent point after the caller's context was cancelled", m)
+					}
 				case req && !done[m]:
 					c.fail("cancel-late", "member %d is still running with a live context at the quiescent point after the outcome was decided (%d succeeded, %d failed of %d, call returned=%v)", m, succ, fail, n, callReturned)
 				case req && done[m]:
